@@ -3,7 +3,7 @@
    statement was false ([flags] text); with the repairs mirrored in the model the former witnesses are fixed points after one
    pass.  No general proof exists.  Proved: the instances, and that the second pass never panics either. *)
 Require Import Bebop.front.Tok Bebop.front.Parse Bebop.front.Fmt Bebop.front.FmtFacts Bebop.front.FmtSafe.
-Require Import Bebop.front.LexInv Bebop.front.ParseInv Bebop.front.FmtInv Bebop.front.MsgInv.
+Require Import Bebop.front.LexInv Bebop.front.ParseInv Bebop.front.FmtInv Bebop.front.MsgInv Bebop.front.GenInv Bebop.front.Items.
 From Coq Require Import List.
 
 Definition C17_partial_statement : Prop :=
@@ -43,3 +43,16 @@ Proof.
   exists y. auto.
 Qed.
 Print Assumptions C17_records.
+
+(* and with enums, through the item framework (front/GenInv.v, front/Items.v): any sequence of struct, message and enum
+   definitions, every layout *)
+Definition C17_schema_statement : Prop :=
+  forall dl lay tail,
+    Forall sdefn_ok dl -> map snd lay = schema_lexemes dl -> Forall (fun p => hws (fst p)) lay -> sep_ok lay -> hws tail ->
+    exists y, (exists s, format (render lay tail) = POk y s) /\ y = schema_canon dl /\ (exists s, format y = POk y s).
+Theorem C17_schema : C17_schema_statement.
+Proof.
+  intros dl lay tail H1 H2 H3 H4 H5. destruct (schema_laws dl lay tail H1 H2 H3 H4 H5) as (y & Hf & Hy & Hi & _).
+  exists y. auto.
+Qed.
+Print Assumptions C17_schema.
